@@ -239,6 +239,7 @@ type crashScenario struct {
 	walFlush string
 	pub      []pubMsg // what the victim published before the crash
 	preSign  []SignReq
+	headBefore uint64
 	savedH   uint64 // highest height whose SaveBlock had completed before the crash
 	appliedH uint64 // highest height the victim had fully applied (state saved) before the crash
 	steps    int
@@ -317,6 +318,7 @@ func (s *crashScenario) build(cutAt int) error {
 		s.walFlush = filepath.Join(s.tmp, "wal-flushed")
 		exec.Command("cp", "-r", filepath.Join(s.tmp, "victim", "cs.wal"), s.walFlush).Run()
 		s.savedH = v.BO.Height()
+		s.headBefore = v.BC.CurrentBlock().Height()
 	}
 	return nil
 }
@@ -661,6 +663,9 @@ type crashOutcome struct {
 	WalVariant string   `json:"wal"`
 	Op         opRec    `json:"op"` // the operation that did NOT happen
 	Window     string   `json:"window"`
+	ModelH     uint64   `json:"model_h"`    // position in CrashRecovery.tla: the crash happens before step ModelStep of height ModelH
+	ModelStep  string   `json:"model_step"`
+	HeadBefore uint64   `json:"head_before"` // chain head when the process died
 	StartErr   string   `json:"start_err,omitempty"`
 	SavedH     uint64   `json:"saved_h"`     // block store height when the process died
 	StoreH     uint64   `json:"store_h"`     // block store height after restart
@@ -672,6 +677,34 @@ type crashOutcome struct {
 	FinalH     uint64   `json:"final_h"`     // victim's height at the end of the continuation
 	NetH       uint64   `json:"net_h"`       // the other nodes' height at the end
 	Problems   []string `json:"problems"`
+}
+
+// modelPos maps a cut to the position in specs/crash/CrashRecovery.tla: the first operation at or after the
+// cut that is a step of the model's per-height script.
+func modelPos(ops []opRec, cut int) (uint64, string) {
+	for k := cut - 1; k < len(ops); k++ {
+		op := ops[k]
+		switch {
+		case strings.HasPrefix(op.Tag, "own-vote(t1"):
+			return op.H, "walPrevote"
+		case strings.HasPrefix(op.Tag, "own-vote(t2"):
+			return op.H, "walPrecommit"
+		case op.Tag == "SaveBlock":
+			return op.H, "SaveBlock"
+		case strings.HasPrefix(op.Tag, "EndHeight("):
+			var h uint64
+			fmt.Sscanf(op.Tag, "EndHeight(%d)", &h)
+			if h == 0 {
+				continue
+			}
+			return h, "walEndHeight"
+		case op.Tag == "writeBlockWithState" || op.Tag == "trieFlush" || op.Tag == "writeHead":
+			return op.H - 1, op.Tag
+		case op.Tag == "saveState" && op.H > 0:
+			return op.H - 1, "saveState"
+		}
+	}
+	return 0, "end"
 }
 
 // window names the position of a cut inside the per-height write script.
@@ -702,6 +735,7 @@ func (s *crashScenario) asNetSim() *netSim {
 
 func crashOnce(w *World, mode string, victim int, heights uint64, cut int, walVariant string, ops []opRec, scratch string) (out crashOutcome) {
 	out = crashOutcome{Mode: mode, Cut: cut, WalVariant: walVariant, Op: ops[cut-1], Window: windowOf(ops, cut)}
+	out.ModelH, out.ModelStep = modelPos(ops, cut)
 	tmp, _ := os.MkdirTemp(scratch, "crash")
 	// (scratch directories are removed by the runner after the process ends: file groups poll their directory)
 	s := &crashScenario{w: w, mode: mode, victim: victim, tmp: tmp}
@@ -730,6 +764,7 @@ func crashOnce(w *World, mode string, victim int, heights uint64, cut int, walVa
 	s.nodes[victim] = nil
 	s.preSign = old.Sign.Take()
 	out.SavedH = s.savedH
+	out.HeadBefore = s.headBefore
 	s.ctl = &crashCtl{} // the restarted process has no scheduled death
 	// the others finish what they can without the victim (3 of 4 is still +2/3)
 	s.run(heights+2, false)
@@ -924,4 +959,45 @@ func TestCrashSweep(t *testing.T) {
 		return outs[a].WalVariant < outs[b].WalVariant
 	})
 	res.Set("outcomes", outs)
+	// ---- property-level verdicts (C05); signatures name mode and the position in the write script ----
+	for _, o := range outs {
+		pos := o.Mode + ":before-" + o.ModelStep
+		detail := map[string]interface{}{"mode": o.Mode, "cut": o.Cut, "wal_tail": o.WalVariant, "operation_not_executed": o.Op, "outcome": o}
+		where := fmt.Sprintf("%s mode, process dies before durable operation %d (%s %s at height %d; WAL tail %s)", o.Mode, o.Cut, o.Op.Kind, o.Op.Tag, o.Op.H, o.WalVariant)
+		for _, p := range o.Problems {
+			if strings.HasPrefix(p, "infra:") {
+				res.Mismatch("infra:crash:"+p, where+": "+p, detail)
+			}
+		}
+		if len(o.Problems) > 0 {
+			continue
+		}
+		res.Distinct(fmt.Sprintf("%s/%d/%s", o.Mode, o.Cut, o.WalVariant))
+		if o.StartErr != "" {
+			res.Mismatch("crash:start-failed:"+pos, where+": the node does not start on the surviving files: "+o.StartErr, detail)
+			continue
+		}
+		if o.StoreDiff != "" {
+			res.Mismatch("crash:store-differs:"+pos, where+": "+o.StoreDiff, detail)
+		}
+		rewound := o.HeadH < o.HeadBefore
+		if len(o.Conflicts) > 0 {
+			kind := "crash:conflicting-signature:" + pos
+			if rewound {
+				kind = "crash:conflicting-signature:" + o.Mode + ":head-rewound"
+			}
+			res.Mismatch(kind, where+": after the restart the validator "+o.Conflicts[0], detail)
+		}
+		if o.FinalH <= o.NetH {
+			kind := "crash:no-catch-up:" + pos
+			res.Mismatch(kind, fmt.Sprintf("%s: restarted at height %d (head %d, consensus state %d) and never passed height %d of the network under timely delivery (stuck at %d)",
+				where, o.ResumeH, o.HeadH, o.StateH, o.NetH, o.FinalH), detail)
+		}
+		if o.Mode == "flush" && o.StoreH < o.HeadBefore {
+			res.Mismatch("crash:lost-committed-block:"+pos, fmt.Sprintf("%s: chain head %d before the crash, %d after the restart although state is flushed every block", where, o.HeadBefore, o.StoreH), detail)
+		}
+	}
+	if len(outs) > 0 {
+		res.Sample(outs[len(outs)/2])
+	}
 }
